@@ -12,11 +12,12 @@ Each `f_src_eq` has two steps:
      never to fire).
 Preconditions are those of the class invariant: coefficients reduced (`WF p`, p prime) where the code relies on it.
 `_is_irreducible`, `_next_irreducible`: PropsGen/C24Src.lean.  Not translated: `_lt` (walrus), string conversions,
-`_reverse/_truncate/_deriv`, the public wrappers (type dispatch), `BinaryPolynomial` (differential correspondence + the
-agreement theorems of C23 only).
+`_reverse/_truncate/_deriv`, the public wrappers (type dispatch).  `BinaryPolynomial` (bitmasks, `b_*_src_eq` below):
+`_degree, _sq, _mul, _mod, _divmod, _gcd, _gcdext, _invert` against the model MpycV.Model.BinPoly.
 -/
 import MpycV.Generated.GfpxSrc
 import MpycV.Lemmas.GfpxSrcBridgePow
+import MpycV.Lemmas.GfpxSrcBridgeBin
 
 namespace MpycV.C23Src
 open MpycV MpycV.GFpX MpycV.GfpxBridge MpycV.PyList
@@ -101,5 +102,35 @@ theorem divmod_src_spec [Fact p.Prime] {a b : List ℕ} (ha : WF p a) (hb : WF p
       toPoly p a = toPoly p q * toPoly p b + toPoly p r ∧ r.length < b.length := by
   obtain ⟨h1, _, _, _, h5⟩ := divmodCore_spec ha hb hbne
   exact ⟨_, _, by rw [divmod_src_eq a hb]; simp [GFpX.divmod, hbne, liftE], h1, h5⟩
+
+/-! ### class BinaryPolynomial (bitmasks) = the model MpycV.BinPoly, for all naturals -/
+
+theorem b_degree_src_eq (a : ℕ) : GfpxSrc.b_degree (a : Int) = .ok (BinPoly.degree a) := by
+  rw [show @GfpxSrc.b_degree = @GfpxMirror.b_degree from rfl]; exact b_degree_eq a
+
+theorem b_sq_src_eq (a : ℕ) : GfpxSrc.b_sq (a : Int) = .ok ((BinPoly.sq a : ℕ) : Int) := by
+  rw [show @GfpxSrc.b_sq = @GfpxMirror.b_sq from rfl]; exact b_sq_eq a
+
+theorem b_mul_src_eq (a b : ℕ) : GfpxSrc.b_mul (a : Int) (b : Int) = .ok ((BinPoly.mul a b : ℕ) : Int) := by
+  rw [show @GfpxSrc.b_mul = @GfpxMirror.b_mul from rfl]; exact b_mul_eq a b
+
+theorem b_mod_src_eq (a b : ℕ) :
+    GfpxSrc.b_mod (a : Int) (b : Int) = liftE (fun (x : ℕ) => (x : Int)) (BinPoly.mod a b) := by
+  rw [show @GfpxSrc.b_mod = @GfpxMirror.b_mod from rfl]; exact b_mod_eq a b
+
+theorem b_divmod_src_eq (a b : ℕ) : GfpxSrc.b_divmod (a : Int) (b : Int) =
+    liftE (fun (qr : ℕ × ℕ) => ((qr.1 : Int), (qr.2 : Int))) (BinPoly.divmod a b) := by
+  rw [show @GfpxSrc.b_divmod = @GfpxMirror.b_divmod from rfl]; exact b_divmod_eq a b
+
+theorem b_gcd_src_eq (a b : ℕ) : GfpxSrc.b_gcd (a : Int) (b : Int) = .ok ((BinPoly.gcd a b : ℕ) : Int) := by
+  rw [show @GfpxSrc.b_gcd = @GfpxMirror.b_gcd from rfl]; exact b_gcd_eq a b
+
+theorem b_gcdext_src_eq (a b : ℕ) : GfpxSrc.b_gcdext (a : Int) (b : Int) =
+    .ok (((BinPoly.gcdext a b).1 : Int), ((BinPoly.gcdext a b).2.1 : Int), ((BinPoly.gcdext a b).2.2 : Int)) := by
+  rw [show @GfpxSrc.b_gcdext = @GfpxMirror.b_gcdext from rfl]; exact b_gcdext_eq a b
+
+theorem b_invert_src_eq (a b : ℕ) :
+    GfpxSrc.b_invert (a : Int) (b : Int) = liftE (fun (x : ℕ) => (x : Int)) (BinPoly.invert a b) := by
+  rw [show @GfpxSrc.b_invert = @GfpxMirror.b_invert from rfl]; exact b_invert_eq a b
 
 end MpycV.C23Src
